@@ -55,3 +55,47 @@ for _name, _params in (
                       "error_handler": "ErrorHandlerCtx"})):
     contract(f"C08.context.{_name.strip('_')}", file=SC, func=f"SidecarValidator.{_name}", params=_params, returns="Opaque",
              enc="native", ghost=dict(G, label_rules=RULES.get(_name, {})), ensures=BAL, unwind="havoc", assume=NOTE, prop="C08")
+
+# C08 "a structurally valid sidecar ... yields no error" / "exactly one '#' in a value column": the placeholders counted are those of the
+# annotation with its Definition groups removed AND its Def-expand groups shrunk back to Def tags (a written-out expansion repeats the '#')
+from pyvc.contract import class_model as _cm8, EXTERNS as _EX8
+_cm8("HedStringPS", {"__str__": "Str"})
+try:
+    import z3 as _z8
+    from pyvc.vals import SV as _SV8, STR as _STR8
+
+    def _text_step(fname):
+        def f(interp, args, kwargs):
+            """in-place tree surgery seen through the text view: str(obj) becomes fname(str(obj))"""
+            fn = _z8.Function(fname, _z8.StringSort(), _z8.StringSort())
+            cur = interp.ctx.strs.to_native(interp.field_read(args[0], "__str__"))
+            interp.field_write(args[0], "__str__", _SV8(_STR8, fn(cur)))
+            return None
+        return f
+
+    def _text_fn(fname):
+        def f(interp, args, kwargs):
+            fn = _z8.Function(fname, _z8.StringSort(), _z8.StringSort())
+            return _SV8(_STR8, fn(interp.ctx.strs.to_native(args[0])))
+        return f
+    _EX8["HedStringPS.remove_definitions"] = _text_step("without_definitions")
+    _EX8["HedStringPS.shrink_defs"] = _text_step("with_defs_shrunk")
+    _EX8["without_definitions"] = _text_fn("without_definitions")
+    _EX8["with_defs_shrunk"] = _text_fn("with_defs_shrunk")
+except ImportError:
+    pass
+contract("C08.expected_pound_sign_count", file="hed/models/column_metadata.py", func="ColumnMetadata.expected_pound_sign_count",
+         params={"column_type": "Opt[Str]"}, returns="Tuple[Int,Opt[Str]]", enc="native", prop="C08",
+         ensures={"C08.pound.one_for_value_columns_none_otherwise": "result[0] == (1 if column_type == 'value' else 0)",
+                  "C08.pound.rule_kind": "result[1] == ('invalidNumberPoundSigns' if column_type == 'value' else"
+                                         " ('tooManyPoundSigns' if (column_type == 'hed_tags' or column_type == 'categorical') else None))"})
+contract("C08.validate_pound_sign_count", file=SC, func="SidecarValidator._validate_pound_sign_count",
+         params={"self": "Opaque", "hed_string": "HedStringPS", "column_type": "Opt[Str]"}, returns="List[Issue]", enc="native", prop="C08",
+         requires=["column_type == 'value' or column_type == 'categorical' or column_type == 'hed_tags'"],
+         lets={"judged": "with_defs_shrunk(without_definitions(hed_string.__str__))"},
+         ensures={
+             "C08.pound.counted_after_removing_definitions_and_shrinking_expansions":
+                 "(len(result) == 0) == (count_of(judged, '#') == (1 if column_type == 'value' else 0))",
+             "C08.pound.code": "all_in(result, lambda x: x.code == 'PLACEHOLDER_INVALID' and x.severity == 1)",
+             "C08.pound.caller_string_untouched": "hed_string.__str__ == old(hed_string.__str__)",
+         })
